@@ -155,6 +155,10 @@ def run(ctx, model=None):
     for k in range(12 if ctx.quick() else 200):
         check_case(ctx, gen.tiny_reach_game(rng), model)
         check_case(ctx, gen.parallel_dead_game(rng), model)
+    for k in range(25 if ctx.quick() else 400):
+        check_case(ctx, gen.with_huge_rewards(gen.layered_tie_game(rng)), model)
+        check_case(ctx, gen.with_empty_action(gen.layered_tie_game(rng), rng), model)
+        check_case(ctx, gen.integer_game(rng), None)
     N = 300 if ctx.quick() else 30000
     for k in range(N):
         g = gen.slow_cycle_game(rng) if k % 9 == 0 else gen.layered_tie_game(rng) if k % 2 == 0 else \
